@@ -219,6 +219,8 @@ func checkC19(c *Ctx) {
 	r.Rule("R19e", "no lossy conversion between rule value and keyword value", 8)
 	r.Rule("R19f", "string-valued const/enum scalars are tagged as strings", 4)
 	r.Rule("R19g", "required lists follow checkIfFieldRequired under the property's own name", 4)
+	r.Rule("R19j", "every constraint keyword is derived from (and guarded by) a rule that constrains the same quantity in the same unit (converse of R19b)", 14)
+	keywordSources(c, "R19j")
 
 	decls := c.oaDecls(pkgOpenAPI)
 	pk := c.P.Pkg(pkgOpenAPI)
@@ -824,4 +826,162 @@ func c19RequiredDependsOnRuleOnly(c *Ctx) {
 	sort.Strings(bad)
 	r.Check(len(bad) == 0 && reads, "R19i", "checkIfFieldRequired consults the required rule only", pos,
 		fmt.Sprintf("checkIfFieldRequired decides on %v (result mentions the rule: %v): a field that carries (buf.validate.field).required = true but is a proto3 optional field (protogen gives it a synthetic oneof) or a oneof member is dropped from `required`, so the schema accepts objects the rule rejects", bad, reads))
+}
+
+// c19KeywordOf: JSON Schema keyword (libopenapi field) -> the buf.validate rules that constrain the same quantity in the same unit.
+var c19KeywordOf = map[string][]string{
+	"MinLength": {"MinLen", "Len"}, "MaxLength": {"MaxLen", "Len"}, "Pattern": {"Pattern"}, "Enum": {"In"}, "Const": {"Const"},
+	"Minimum": {"Gte"}, "ExclusiveMinimum": {"Gt"}, "Maximum": {"Lte"}, "ExclusiveMaximum": {"Lt"},
+	"MinItems": {"MinItems"}, "MaxItems": {"MaxItems"}, "UniqueItems": {"Unique"},
+	"MinProperties": {"MinPairs"}, "MaxProperties": {"MaxPairs"},
+}
+
+// keywordSources — R19j / R06m (the converse of R19b). Every assignment of a constraint keyword of the schema inside an
+// apply*Constraints function lies under a presence test of a rule that constrains the same quantity in the same unit
+// (minLength counts characters: min_len, not min_bytes; minimum is inclusive: gte, not gt …), and reads only such rules.
+// A keyword derived from any other rule publishes a bound the rule does not state: documents the rules accept fail the schema.
+func keywordSources(c *Ctx, rid string, weaker ...map[string][]string) {
+	r := c.R
+	decls := c.oaDecls(pkgOpenAPI)
+	n := 0
+	for fn, decl := range decls {
+		if !(strings.HasPrefix(fn.Name(), "apply") && strings.HasSuffix(fn.Name(), "Constraints")) || decl.Body == nil {
+			continue
+		}
+		a := c.c19ParseApply(fn)
+		if a.rcName == "" {
+			continue
+		}
+		// rule names mentioned (Has*/Get* on the rules local) in an expression
+		rulesIn := func(e ast.Node) []string {
+			var out []string
+			ast.Inspect(e, func(nd ast.Node) bool {
+				if call, ok := nd.(*ast.CallExpr); ok {
+					if sel, ok := call.Fun.(*ast.SelectorExpr); ok && types.ExprString(sel.X) == a.rcName {
+						nm := sel.Sel.Name
+						if strings.HasPrefix(nm, "Has") || strings.HasPrefix(nm, "Get") {
+							out = append(out, nm[3:])
+						}
+					}
+				}
+				return true
+			})
+			return out
+		}
+		// locals defined from rule getters: local -> rules
+		finfo := c.P.DeclPkg[fn].TypesInfo
+		localRules := map[types.Object][]string{}
+		ast.Inspect(decl.Body, func(nd ast.Node) bool {
+			if as, ok := nd.(*ast.AssignStmt); ok && len(as.Lhs) == len(as.Rhs) {
+				for i, l := range as.Lhs {
+					if id, ok := l.(*ast.Ident); ok {
+						if rs := rulesIn(as.Rhs[i]); len(rs) > 0 {
+							if o := finfo.ObjectOf(id); o != nil {
+								localRules[o] = append(localRules[o], rs...)
+							}
+						}
+					}
+				}
+			}
+			return true
+		})
+		var visit func(stmts []ast.Stmt, guards []string)
+		checkAssign := func(as *ast.AssignStmt, guards []string) {
+			for i, l := range as.Lhs {
+				sel, ok := l.(*ast.SelectorExpr)
+				if !ok || types.ExprString(sel.X) != "schema" {
+					continue
+				}
+				allowed, isKw := c19KeywordOf[sel.Sel.Name]
+				if !isKw {
+					continue
+				}
+				for _, w := range weaker {
+					allowed = append(append([]string{}, allowed...), w[sel.Sel.Name]...)
+				}
+				n++
+				okRule := func(x string) bool {
+					for _, al := range allowed {
+						if al == x {
+							return true
+						}
+					}
+					return false
+				}
+				// value sources
+				var srcs []string
+				if i < len(as.Rhs) {
+					srcs = rulesIn(as.Rhs[i])
+					ast.Inspect(as.Rhs[i], func(nd ast.Node) bool {
+						if id, ok := nd.(*ast.Ident); ok {
+							if o := finfo.ObjectOf(id); o != nil {
+								srcs = append(srcs, localRules[o]...)
+							}
+						}
+						return true
+					})
+				}
+				guarded := false
+				for _, g := range guards {
+					if okRule(g) {
+						guarded = true
+					}
+				}
+				var foreign []string
+				for _, sname := range srcs {
+					if !okRule(sname) {
+						foreign = append(foreign, sname)
+					}
+				}
+				key := fmt.Sprintf("%s: keyword %s is derived from rule %s", fn.Name(), sel.Sel.Name, strings.Join(allowed, "/"))
+				switch {
+				case len(foreign) > 0:
+					r.Bad(rid, key, c.P.Pos(as.Pos()), fmt.Sprintf("%s assigns schema.%s from rule(s) %v; the keyword corresponds to %v — a bound in another unit or of another kind (bytes vs characters, exclusive vs inclusive) is published, so values the rules accept are rejected by the schema (or the reverse)", fn.Name(), sel.Sel.Name, dedupeSorted(foreign), allowed), nil)
+				case !guarded:
+					r.Bad(rid, key, c.P.Pos(as.Pos()), fmt.Sprintf("%s assigns schema.%s under the presence tests %v, none of which is the rule the keyword corresponds to (%v)", fn.Name(), sel.Sel.Name, guards, allowed), nil)
+				default:
+					r.OK(rid, key, c.P.Pos(as.Pos()))
+				}
+			}
+		}
+		visit = func(stmts []ast.Stmt, guards []string) {
+			for _, st := range stmts {
+				switch x := st.(type) {
+				case *ast.IfStmt:
+					g := append(append([]string{}, guards...), rulesIn(x.Cond)...)
+					if x.Init != nil {
+						visit([]ast.Stmt{x.Init}, guards)
+					}
+					visit(x.Body.List, g)
+					if x.Else != nil {
+						visit([]ast.Stmt{x.Else}, guards)
+					}
+				case *ast.BlockStmt:
+					visit(x.List, guards)
+				case *ast.SwitchStmt:
+					for _, cs := range x.Body.List {
+						cc := cs.(*ast.CaseClause)
+						g := append([]string{}, guards...)
+						for _, e := range cc.List {
+							g = append(g, rulesIn(e)...)
+						}
+						if x.Tag != nil {
+							g = append(g, rulesIn(x.Tag)...)
+						}
+						visit(cc.Body, g)
+					}
+				case *ast.ForStmt:
+					visit(x.Body.List, guards)
+				case *ast.RangeStmt:
+					visit(x.Body.List, guards)
+				case *ast.AssignStmt:
+					checkAssign(x, guards)
+				}
+			}
+		}
+		visit(decl.Body.List, nil)
+	}
+	if n == 0 {
+		r.Unres(rid, "apply*Constraints keyword assignments", "", "no assignment of a constraint keyword found")
+	}
 }
